@@ -47,6 +47,9 @@ type EQuant struct {
 	Forall bool
 	Vars   []QVar
 	Body   Expr
+	// Pats: optional explicit instantiation patterns, Dafny style: forall k int :: {f(k), g(k)} {h(k)} body
+	// (each brace group is one multi-pattern; groups are alternatives). Without them the solver chooses.
+	Pats [][]Expr
 }
 type ELet struct {
 	Name string
@@ -101,6 +104,8 @@ type FuncContract struct {
 	Results  []QVar
 	// MoreFiles: further contract files that add clauses to this function
 	MoreFiles []string
+	// loop-carried ghost variables per loop ordinal ("loop N modifies g, h"): havocked at the loop head
+	LoopGhosts map[int][]string
 }
 
 type SpecFunc struct {
@@ -152,7 +157,7 @@ var clauseKeywords = map[string]bool{
 	"mode": true, "alloc_bound": true, "pure": true, "protected_by": true, "immutable": true,
 	"inv": true, "opaque": true, "havoc": true, "noinline": true, "bounded": true, "returns_fresh": true,
 	"sweep": true, "cover": true, "replay_hint": true, "never_writes": true, "frame_only": true, "reveal": true, "iface_calls_only": true, "direct_calls_only": true,
-	"requires_held": true, "unshared_receiver": true, "sync": true, "owner_lock": true, "complete": true,
+	"lean_invariants": true, "requires_held": true, "unshared_receiver": true, "sync": true, "owner_lock": true, "complete": true,
 }
 
 // ParseContractFile reads one file and adds its declarations to cs. pkgKey is
@@ -391,6 +396,16 @@ func (cs *ContractSet) ParseContractFile(path string, pkgPath string) error {
 						return err
 					}
 					lc.Decreases = &c
+				case "modifies":
+					// loop-carried ghost variables: arbitrary at the head of an arbitrary iteration (constrained by the invariant only)
+					if cur.LoopGhosts == nil {
+						cur.LoopGhosts = map[int][]string{}
+					}
+					for _, g := range strings.Split(r3, ",") {
+						if g = strings.TrimSpace(g); g != "" {
+							cur.LoopGhosts[n] = append(cur.LoopGhosts[n], g)
+						}
+					}
 				case "bounded":
 					k, err := strconv.Atoi(strings.TrimSpace(r3))
 					if err != nil {
@@ -462,10 +477,14 @@ func (cs *ContractSet) ParseContractFile(path string, pkgPath string) error {
 				cur.Flags["trusted"] = "1"
 				cs.Trusted = append(cs.Trusted, fmt.Sprintf("trusted contract %s (%s:%d)", cur.Key, path, l.no))
 			default:
-				cur.Flags[word] = strings.TrimSpace(rest)
-				if rest == "" {
-					cur.Flags[word] = "1"
+				val := strings.TrimSpace(rest)
+				if val == "" {
+					val = "1"
 				}
+				if prev, ok := cur.Flags[word]; ok && prev != val && len(cur.MoreFiles) > 0 {
+					return fmt.Errorf("%s:%d: %s of %s is already set to %q in %s", path, l.no, word, cur.Key, prev, cur.File)
+				}
+				cur.Flags[word] = val
 			}
 		}
 	}
@@ -767,6 +786,26 @@ func (p *eparser) parseExpr(minPrec int) (Expr, error) {
 			p.next()
 			p.next() // ::
 			break
+		}
+		for p.peek().t == token.LBRACE {
+			p.next()
+			var group []Expr
+			for {
+				pe, err := p.parseExpr(0)
+				if err != nil {
+					return nil, err
+				}
+				group = append(group, pe)
+				if p.peek().t == token.COMMA {
+					p.next()
+					continue
+				}
+				break
+			}
+			if p.next().t != token.RBRACE {
+				return nil, fmt.Errorf("quantifier pattern: expected }")
+			}
+			q.Pats = append(q.Pats, group)
 		}
 		body, err := p.parseExpr(0)
 		if err != nil {
